@@ -119,6 +119,34 @@ theorem C55_stdout_only_partial (conn : Bytes) (rs : List Rec) (hp : parse conn 
     readAll conn = (stdoutOf rs, End.eof) := by
   rw [C55_response_stream conn rs hp he, allBeforeEnd_eq_stdoutOf rs hso]
 
+/-- **C55_read_chunking**: the response stream does not depend on how the caller cuts its reads.  For every connection
+    content and every sequence of `Read(p)` calls with non-empty buffers that all return a nil error, the bytes
+    delivered are a prefix of what `io.ReadAll` gets (`readAll`), continued by what is still `remaining`; and a call that
+    returns an error delivers nothing, happens exactly when nothing remains, and reports the end `readAll` reports. -/
+theorem C55_read_chunking (conn : Bytes) (sizes : List Nat) (hpos : ∀ s ∈ sizes, 0 < s)
+    (hnil : ∀ p ∈ (readSteps conn sizes).1, p.2 = RErr.nil) :
+    ∃ st', (readAll conn).1 = (readSteps conn sizes).2 ++ remaining st' := by
+  obtain ⟨st', h⟩ := stepsFrom_spec sizes ⟨conn, []⟩ hpos hnil
+  refine ⟨st', ?_⟩
+  show (readAll conn).1 = (stepsFrom ⟨conn, []⟩ sizes).2 ++ remaining st'
+  rw [← h]
+  simp [readAll, readStream_drain, remaining]
+
+theorem C55_read_end (st : RdState) (s : Nat) (hs : 0 < s) (he : (readStep st s).2.2 ≠ RErr.nil) :
+    remaining st = [] ∧ (readStep st s).2.1 = [] ∧
+      toEnd (readStep st s).2.2 = (readStream (st.conn.length + 1) st.conn []).2 := by
+  obtain ⟨h1, h2, h3⟩ := (readStep_spec st s hs).2 he
+  exact ⟨h1, h2, by rw [readStream_drain, h3]⟩
+
+/-- every call returns at most `len(p)` bytes -/
+theorem C55_read_count (st : RdState) (s : Nat) : (readStep st s).2.1.length ≤ s := by
+  unfold readStep
+  split
+  · simp
+  · split
+    · split <;> simp [List.length_take] <;> omega
+    · simp [List.length_take]; omega
+
 /-- **C55_witness_stderr**: a STDERR record "E" followed by END_REQUEST: the response stream is "E", the STDOUT stream is empty. -/
 theorem C55_witness_stderr : ¬ StdoutOnly := by
   intro h
